@@ -37,12 +37,12 @@ All twenty properties are claimed in `MANIFEST.json`; `not_applicable` is empty.
 | C06 | Cache | `read_pure`, `results_disjoint`, `mutation_local`, `other_calls_preserve`, `pose_independent_of_cache` | md5 idealised injective |
 | C07 | Prog (`Rel`/`Blind`/`SkipFree`), Stream | `truncated_rejected`, `truncated_rejected_stream_full`, `trailing_ignored(_any)`, `truncated_window_stream(_slice)` (via `Proofs/StreamRev.sr_agree`), `truncated_window_stream_complete`, `truncated_window_stream_any_cache`, `cache_stays_ok` (every cache state, and "raises when the intact read raises": `Proofs/StreamWarm.lean`) | — |
 | C08 | PoseOps | `backends_agree`, `convert_eq`, `missing_all_dims_iff_conf_zero`, `getPoints/selectFrames/sliceStep_agree`, `matmul_point_view` | torch / tf primitives |
-| C09 | PoseOps, Spatial, Interp, Normalize | `visEq_view`, `zeroFilled_exact`, `…_ni` for nine operations, `run_ni`, `program_noninterference`; `Props/C09Norm`: `normalize_ni`, `normalizeDistribution_ni`, `runN_ni`; `Props/C09Repr`: `rep2_ni`, `rep3_ni`, `pointsRepRows_ni`, `forward_ni` (the assembled representation); `Props/C09Ser`: `serialise_ni` (write → read) | 3-D normaliser (K4), spline interpolants: two-run execution |
+| C09 | PoseOps, Spatial, Interp, Normalize | `visEq_view`, `zeroFilled_exact`, `…_ni` for nine operations, `run_ni`, `program_noninterference`; `Props/C09Norm`: `normalize_ni`, `normalizeDistribution_ni`, `runN_ni`; `Props/C09Repr`: `rep2_ni`, `rep3_ni`, `pointsRepRows_ni`, `forward_ni` (the assembled representation); `Props/C09Ser`: `serialise_ni` (write → read); `interpolateWith_ni` (every interpolation kind) | 3-D normaliser (K4): two-run execution |
 | C10 | Tensor, Masked | `run_refines`, `shapes_identical`, `elementwise_valid_iff`, `strict_sum_valid_iff`, `mean_valid_iff`, `zero_filled_exact` | — |
 | C11 | Select | `select_component(_all)`, `pointIndex_go`, `remove_eq_select_complement`, `remove_points_eq_select`, `select_limbs_names`; helpers (`Model/Helpers`): `hidePoints_other`, `hidePoints_hidden`, `mem_namedIndexes`, `correctWrist_other`, `correctWrist_at`; values: `getPoints_cell`, `getComponents_values`, `removeComponents_values` | the name tables of the known formats |
-| C12 | PoseSeq (+ all body models) | `step_inv`, `run_inv`, `wf_pointwise`, `fits_of_inv`, `serialisable`, `normalize_is_transform`, `normalizeDistribution_is_transform`, `unnormalizeDistribution_is_transform`, `normalize_wf` … | dropouts' draws, torch / tf bodies |
+| C12 | PoseSeq (+ all body models) | `step_inv`, `run_inv`, `wf_pointwise`, `fits_of_inv`, `serialisable`, `normalize_is_transform`, `normalizeDistribution_is_transform`, `unnormalizeDistribution_is_transform`, `normalize_wf` …, `interpolate_any_kind_wf` | dropouts' draws, torch / tf bodies |
 | C13 | Normalize, Normalize3D | `normalize_post`, `normalize_similarity_invariant`, `distribution_mean_zero`, `distribution_std_one`, `unnormalize_inverse`, `normalizeDistribution_post`, `normalizeDistribution_post_all`, `line_p1_at_origin`, `plane_at_z0_partial`, `line_on_negative_y`, `normalize3D_translation_invariant`, `normalize3D_scale_invariant`, `normalize3DBody_independent`, `not_rotation_invariant` | float rounding; `arctan2` / `from_euler` by algebraic meaning; body-level distribution theorem for axes (0,1,2) |
-| C14 | Interp | `linear_affine_exact`, `linear_identity_at_observations`, `linear_within_neighbours`, `interp_frames_fps`, `linspace_ends`, `track_zero_outside_window`, `before_window` | quadratic / cubic interpolants (scipy) |
+| C14 | Interp | `linear_affine_exact`, `linear_identity_at_observations`, `linear_within_neighbours`, `interp_frames_fps`, `linspace_ends`, `track_zero_outside_window`, `before_window`; every kind (interpolant = parameter): `interp_frames_fps_any_kind`, `track_zero_outside_window_any_kind`, `track_identity_at_observations` | that scipy's quadratic / cubic interpolants reproduce samples and affine data |
 | C15 | Spatial, PoseOps | `bbox_tight`, `focus_min_zero`, `flip_neg_only`, `flip_involutive`, `matmul_id_2/3`, `matmul_linear_2/3`, `augment_id_when_std_zero`, `focusBody_spec`, `ceil_extent_spec` | cos / sin of the drawn angle |
 | C16 | Frames, PoseOps | `select_exact`, `step_exact`, `dropout_kept`, `dropout_length`, `dropout_count`, `dropout_keeps_one`, `tf_dropout_kept`, `tf_dropout_keeps_one` | the random draws themselves |
 | C17 | Represent | `…_missing_zero` (4), `…_not_nan` (3), `distance_formula`, `angle_formula`, `innerAngle_formula`, `pointLine_formula` (Heron), `limbPoints_spec`, `limbPoints_in_range`, `mem_trianglePoints`, `output_size_is_row_count`, `pointsRep_row`, `groupEmbeds_entry`; end to end (`poseRepresentation`): `forward_shape`, `forward_point_entry`, `forward_limb_entry`, `forward_triple_entry` | IEEE overflow / `acos(1+ε)`; `atan`, `acos` |
